@@ -19,7 +19,12 @@ TConfig  == IsEv("Config") /\ InitParse /\ Chk("InitSucceeds", Ev.ok) /\ UNCHANG
 TContent == IsEv("Toml") /\ Content /\ FieldEq(Ev.fields, toml')
 TRender  == IsEv("NetworkArgs") /\ RenderRead /\ Chk("RenderSucceeds", Ev.ok) /\ FieldEq(Ev.fields, args')
 TSources == IsEv("Sources") /\ pc = "done" /\ Chk("SameSourcesAsApi", Ev.same) /\ UNCHANGED cvars
-TNext == TConfig \/ TContent \/ TRender \/ TSources
+(* the [summary] table the render command writes back into the configuration file against the generated headers: counts equal the
+   NSPECIES / NELEMENTS / NREACTIONS macros and the lengths of its own lists; gas + ice = all *)
+TSummary == IsEv("Summary") /\ pc = "done" /\ Chk("SummaryAgreesWithSources", Ev.consistent) /\ UNCHANGED cvars
+(* `naunet example`: the configuration it writes (through `naunet init`) holds the tables of the bundled example it was asked for *)
+TExample == IsEv("Example") /\ Chk("ExampleConfigIsTheExample", Ev.same) /\ UNCHANGED cvars
+TNext == TConfig \/ TContent \/ TRender \/ TSources \/ TSummary \/ TExample
 TSpec == TInit /\ [][TNext]_<<cvars, tid, l>>
 Track ==
   /\ Chk("Inv:RoundTripId", RoundTripId)
